@@ -363,8 +363,18 @@ func EvalAll(c *core.Ctx, line string) []*core.Case {
 				return nil
 			}
 			data := core.UnHex(f[6])
-			b := packet.EncodeICMPEcho(make([]byte, 8+len(data)), byte(atoi(f[2])), byte(atoi(f[3])), uint16(atoi(f[4])), uint16(atoi(f[5])), data)
-			return []*core.Case{{Line: line, Impl: hx(b), Class: "msg-echo"}}
+			dirty := make([]byte, 8+len(data)) // a reused buffer: every byte of the message must be written
+			for i := range dirty {
+				dirty[i] = 0xd7 ^ byte(i)
+			}
+			b := packet.EncodeICMPEcho(dirty, byte(atoi(f[2])), byte(atoi(f[3])), uint16(atoi(f[4])), uint16(atoi(f[5])), data)
+			return []*core.Case{{Line: line, Impl: hx(b), Class: "msg-echo",
+				Oracle: func() (string, string) {
+					if len(b) >= 4 && (b[2] != 0 || b[3] != 0) {
+						return "EncodeICMPEcho leaves the checksum field of a reused buffer unwritten (the send paths compute the checksum over the message as given)", ""
+					}
+					return "", ""
+				}}}
 		case "na":
 			if len(f) != 7 {
 				return nil
